@@ -1,5 +1,15 @@
 import IcyVerif.Model.Palette
+import IcyVerif.Model.PaletteNamed
+import IcyVerif.Model.PalStream
 import IcyVerif.Drv.Util
+/-! Line protocol of the palette model (`palette …`, C16).  Besides the RGB operations (`ops`), the codecs and the five text
+    formats:
+
+  nops <colours> <nops>        operations on STORED colours (with names): colours = `rrggbb[:namehex],…` | `-`;
+                               nops = `i<rgb>[:name]` insert_color, `p<rgb>[:name]` push, `s<i>:<rgb>[:name]` set_color,
+                               `l<i>` get_rgb, `d` is_default.  Answer: the answers (`t`/`f` for `d`), ` | `, length, final
+                               colours with names (hashed when there are more than 20)
+  nfile <fmt> <hex> <nops>     the same on the palette `load_palette(fmt, bytes)` returns; `err` when it does not load -/
 namespace IcyVerif.Drv.Palette
 open IcyVerif.Palette IcyVerif.Drv
 
@@ -69,6 +79,42 @@ def showColors (cs : List Color) : String :=
     | some n => hex6 c.rgb ++ ":" ++ textHex n
     | none => hex6 c.rgb)
 
+def namedColor? (parts : List String) : Option Color :=
+  match parts with
+  | [c] => (rgb? c).map fun c => ⟨none, c⟩
+  | [c, n] => match rgb? c, text? n with
+    | some c, some n => some ⟨some n, c⟩
+    | _, _ => none
+  | _ => none
+
+def nop? (t : String) : Option NOp :=
+  match t.toList with
+  | ['d'] => some NOp.isDefault
+  | 'i' :: rest => (namedColor? ((String.ofList rest).splitOn ":")).map NOp.insert
+  | 'p' :: rest => (namedColor? ((String.ofList rest).splitOn ":")).map NOp.push
+  | 'l' :: rest => (String.ofList rest).toNat?.map NOp.lookup
+  | 's' :: rest =>
+    match (String.ofList rest).splitOn ":" with
+    | i :: col => match i.toNat?, namedColor? col with
+      | some i, some c => some (NOp.set i c)
+      | _, _ => none
+    | _ => none
+  | _ => none
+
+def nops? (s : String) : Option (List NOp) :=
+  if s == "-" then some [] else (s.splitOn ",").mapM nop?
+
+def showNOut : NOut → String
+  | .idx i => toString i
+  | .rgb c => hex6 c
+  | .flag b => if b then "t" else "f"
+
+def showNamed (start : List Color) (ops : List NOp) : String :=
+  let t := traceN PalStream.dosDefault start ops
+  let cols := showColors t.2
+  (if t.1.isEmpty then "-" else " ".intercalate (t.1.map showNOut)) ++ " | " ++ toString t.2.length ++ " " ++
+    (if t.2.length ≤ 20 then cols else "#" ++ toString (fnv (cols.toUTF8.toList.map UInt8.toNat)))
+
 def showRes : Except String (List Rgb) → String
   | .ok p => toHex (asVec p)
   | .error site => "panic:" ++ site
@@ -79,6 +125,16 @@ def handle : List String → String
       let t := trace (triples bs) ops
       (if t.1.isEmpty then "-" else " ".intercalate (t.1.map showOut)) ++ " | " ++ toString t.2.length ++ " " ++
         toString (fnv (asVec t.2))
+    | _, _ => "bad-op"
+  | ["nops", init, ops] => match colors? init, nops? ops with
+    | some cs, some ops => showNamed cs ops
+    | _, _ => "bad-op"
+  | ["nfile", f, h, ops] => match fmt? f, nops? ops with
+    | some f, some ops => match text? h with
+      | none => "err"
+      | some s => match importM f s with
+        | none => "err"
+        | some p => showNamed p.colors ops
     | _, _ => "bad-op"
   | ["from63", h] => match parseHex h with
     | some bs => showRes (from63 bs)
